@@ -278,7 +278,7 @@ def main():
                      "Definition cases : list (text * list (text * text) * observed) := [\n  %s\n].\n"
                      "Eval vm_compute in (failing check_parse cases).\n" % ";\n  ".join(cases[i:i + CH]))
         files.append({"path": path, "first": i, "count": len(cases[i:i + CH])})
-    ser_files = []
+    ser_files, wf_files = [], []
     for i in range(0, len(ser_cases), CH):
         path = os.path.join(os.getcwd(), "Cases_C15ser_%03d.v" % (i // CH))
         with open(path, "w") as fh:
@@ -287,7 +287,15 @@ def main():
                      "Definition cases : list (list scmd * text) := [\n  %s\n].\n"
                      "Eval vm_compute in (failing check_ser cases).\n" % ";\n  ".join(ser_cases[i:i + CH]))
         ser_files.append({"path": path, "first": i, "count": len(ser_cases[i:i + CH])})
-    json.dump({"ser_files": ser_files, "ser_descr": ser_descr, "files": files, "descr": descr, "oracle_failures": fails, "distribution": dist, "evaluations": evaluations,
+        # which of these programs meet the hypotheses of the round-trip theorem C15_serialise_parse (indices printed: those that do not)
+        path = os.path.join(os.getcwd(), "Cases_C15wf_%03d.v" % (i // CH))
+        with open(path, "w") as fh:
+            fh.write("From Coq Require Import NArith ZArith List.\nFrom MP Require Import Base.Check Model.Lexer Model.Parser Model.Serial Proofs.LexSerial.\n"
+                     "Import ListNotations.\nOpen Scope N_scope.\n"
+                     "Definition cases : list (list scmd * text) := [\n  %s\n].\n"
+                     "Eval vm_compute in (failing (fun c : list scmd * text => forallb wfc (fst c)) cases).\n" % ";\n  ".join(ser_cases[i:i + CH]))
+        wf_files.append({"path": path, "first": i, "count": len(ser_cases[i:i + CH])})
+    json.dump({"ser_files": ser_files, "wf_files": wf_files, "ser_descr": ser_descr, "files": files, "descr": descr, "oracle_failures": fails, "distribution": dist, "evaluations": evaluations,
                "distinct_nontrivial": nontrivial, "samples": descr[:1] + descr[-2:], "tree": mpilot.__file__}, open(out, "w"), default=str)
 
 
@@ -314,7 +322,7 @@ def value_for(rnd, p, depth=0):
     if t is P.ListParameter:
         return [value_for(rnd, p.value_type, depth + 1) for _ in range(rnd.randint(0, 3))]
     if t is P.TupleParameter:
-        return {rnd.choice(["k", "Description"]): rstr(rnd)}
+        return {rnd.choice(["k", "Description"]): rstr(rnd)} if rnd.random() < 0.85 else {}
     if t is P.PathParameter:
         return "d.csv"
     if t is P.ResultParameter:
